@@ -82,6 +82,28 @@ pub struct Runner<'a> {
     pub in_pm: bool,
 }
 
+/// progress counter for the watchdog: bumped at every operation applied to the real code
+pub static PROGRESS: std::sync::atomic::AtomicU64 = std::sync::atomic::AtomicU64::new(0);
+#[inline] pub fn progress() { PROGRESS.fetch_add(1, std::sync::atomic::Ordering::Relaxed); }
+
+/// a single operation of the real code that makes no progress for `secs` seconds is a hang (C10): say so and
+/// leave, instead of waiting for the orchestrator's suite timeout
+pub fn start_watchdog(secs: u64) {
+    std::thread::spawn(move || {
+        let mut last = PROGRESS.load(std::sync::atomic::Ordering::Relaxed);
+        let mut idle = 0u64;
+        loop {
+            std::thread::sleep(std::time::Duration::from_secs(1));
+            let now = PROGRESS.load(std::sync::atomic::Ordering::Relaxed);
+            if now == last { idle += 1; } else { idle = 0; last = now; }
+            if idle >= secs {
+                eprintln!("@hang: the current operation has not returned for {} s", secs);
+                std::process::exit(97);
+            }
+        }
+    });
+}
+
 pub fn silent_panics() {
     // caught panics are expected (they are reported as answers); with VERIF_FLUSH=1 (the crash-locating
     // re-run) every panic message goes to stderr so that an uncaught one can be located
@@ -135,6 +157,7 @@ impl<'a> Runner<'a> {
     /// Apply one op. `expect_key`: the key the handle argument is supposed to designate.
     pub fn step(&mut self, op: &Op, expect_key: Option<i64>) -> String {
         if self.dead { return "DEAD".into(); }
+        progress();
         if self.in_pm {
             if self.pm_left == 0 { self.dead = true; return "DEAD".into(); }
             self.pm_left -= 1;
@@ -145,8 +168,10 @@ impl<'a> Runner<'a> {
         let pre_entries = self.real.entries().unwrap_or_default();
         self.ops.push(op.clone());
         if self.out.flush {
-            let ops: Vec<String> = self.ops.iter().map(|o| o.text()).collect();
-            eprintln!("@ {} {} {} {} :: {}", self.suite, self.coll, self.variant, self.cap, ops.join(" ; "));
+            // incremental: `@new` starts a history, every operation is one `@op` line (the orchestrator
+            // reassembles the last history; printing the whole history per operation was quadratic)
+            if self.ops.len() == 1 { eprintln!("@new {} {} {} {}", self.suite, self.coll, self.variant, self.cap); }
+            eprintln!("@op {}", op.text());
         }
         cb_reset(None, true);
         let real = &mut self.real;
@@ -336,6 +361,7 @@ impl<'a> Runner<'a> {
 
     /// apply without any bookkeeping (bulk loading of very large trees)
     pub fn step_light(&mut self, op: &Op) {
+        progress();
         if self.oracles { self.step(op, None); return; }
         cb_reset(None, false);
         let real = &mut self.real;
